@@ -48,6 +48,7 @@ fn spec_from_base(u: &Unit, b: f64) -> f64 {
 }
 
 #[kani::proof]
+#[kani::solver(cvc5)]
 fn u_convert_formulas() {
     let v: f64 = kani::any();
     let c: f64 = kani::any();
@@ -70,9 +71,26 @@ fn u_convert_formulas() {
     kani::cover!(v == 0.0, "reach-zero");
 }
 
-// ---- convert(): resolve_unit replaced by its contract ---------------------------------------------------
+// ---- convert(): resolve_unit and the two direction functions replaced by their contracts ----------------
+// (the direction functions are proved against the formulas by u_convert_formulas; here convert() is verified
+// modularly: whatever to-base returns is what from-base receives, and its result is convert's result)
 static mut RESOLVED: [Option<Unit>; 2] = [None, None];
 static mut RESOLVE_CALLS: usize = 0;
+static mut TO_BASE_ARG: f64 = 0.0;
+static mut TO_BASE_UNIT: f64 = 0.0;
+static mut TO_BASE_RET: f64 = 0.0;
+static mut FROM_BASE_ARG: f64 = 0.0;
+static mut FROM_BASE_UNIT: f64 = 0.0;
+static mut FROM_BASE_RET: f64 = 0.0;
+static mut DIR_CALLS: [usize; 2] = [0, 0];
+
+fn coeff(u: &Unit) -> f64 {
+    match &u.conversion {
+        ConversionType::Linear { coefficient } => *coefficient,
+        ConversionType::Reciprocal { coefficient } => *coefficient,
+        _ => 0.0,
+    }
+}
 
 fn resolve_contract(_identifier: &str) -> Result<Unit> {
     let i = unsafe { RESOLVE_CALLS };
@@ -88,24 +106,50 @@ fn resolve_contract(_identifier: &str) -> Result<Unit> {
     }
 }
 
+fn to_base_contract(u: &Unit, v: f64) -> f64 {
+    let r: f64 = kani::any();
+    unsafe { TO_BASE_ARG = v; TO_BASE_UNIT = coeff(u); TO_BASE_RET = r; DIR_CALLS[0] += 1; }
+    r
+}
+
+fn from_base_contract(u: &Unit, b: f64) -> f64 {
+    let r: f64 = kani::any();
+    unsafe { FROM_BASE_ARG = b; FROM_BASE_UNIT = coeff(u); FROM_BASE_RET = r; DIR_CALLS[1] += 1; }
+    r
+}
+
+/// an arbitrary unit identified by its coefficient
+fn any_tagged_unit() -> Unit {
+    let c: f64 = kani::any();
+    kani::assume(c == c);
+    if kani::any() { Unit::new_linear(any_category(), &[], c) } else { Unit::new_reciprocal(any_category(), &[], c) }
+}
+
 #[kani::proof]
 #[kani::unwind(3)]
 #[kani::stub(alloc::fmt::format, crate::verif_common::fmt_stub)]
 #[kani::stub(std::backtrace::Backtrace::capture, crate::verif_common::bt_stub)]
 #[kani::stub(crate::units::resolve_unit, resolve_contract)]
+#[kani::stub(crate::units::Unit::convert_to_base, to_base_contract)]
+#[kani::stub(crate::units::Unit::convert_from_base, from_base_contract)]
 fn u_convert_convert() {
     let v: f64 = kani::any();
-    let from = if kani::any() { Some(any_unit()) } else { None };
-    let to = if kani::any() { Some(any_unit()) } else { None };
+    let from = if kani::any() { Some(any_tagged_unit()) } else { None };
+    let to = if kani::any() { Some(any_tagged_unit()) } else { None };
     unsafe { RESOLVED = [from.clone(), to.clone()]; }
     let r = convert(v, "a", "b");
+    let calls = unsafe { DIR_CALLS };
     match (&from, &to) {
         (Some(f), Some(t)) => {
             if f.category != t.category {
-                assert!(r.is_err(), "U-CONVERT#convert:units-of-different-categories-are-never-convertible");
+                assert!(r.is_err() && calls[0] == 0 && calls[1] == 0, "U-CONVERT#convert:units-of-different-categories-are-never-convertible");
             } else {
-                let want = spec_from_base(t, spec_to_base(f, v));
-                assert!(matches!(&r, Ok(x) if same_bits(*x, want)), "U-CONVERT#convert:goes-through-the-category-base-unit");
+                unsafe {
+                    assert!(calls[0] == 1 && calls[1] == 1, "U-CONVERT#convert:one-step-to-the-base-unit-and-one-step-from-it");
+                    assert!(same_bits(TO_BASE_ARG, v) && same_bits(TO_BASE_UNIT, coeff(f)), "U-CONVERT#convert:source-unit-converts-the-value-to-base");
+                    assert!(same_bits(FROM_BASE_ARG, TO_BASE_RET) && same_bits(FROM_BASE_UNIT, coeff(t)), "U-CONVERT#convert:target-unit-converts-that-base-value");
+                    assert!(matches!(&r, Ok(x) if same_bits(*x, FROM_BASE_RET)), "U-CONVERT#convert:result-is-the-target-unit's-value");
+                }
             }
         }
         _ => assert!(r.is_err(), "U-CONVERT#convert:unknown-or-ambiguous-identifier-is-an-error-not-a-guess"),
